@@ -163,11 +163,9 @@ theorem opcodeLoop_indep (ctx : Ctx) (d : Bytes) (bcOff bcLen : Int) :
           simp only at hs
           obtain ⟨hi, hs'⟩ := hs
           subst hi; subst hs'
-          simp only
-          by_cases hg : i1 > idxc
-          · simp only [hg, dite_true]
-            exact ih (bcLen - (i1 - bcOff)).toNat (by omega) i1 r1 r2 s1 rfl
-          · simp only [hg, dite_false, Except.map]
+          have hadv := stepOpcode_advance h1
+          simp only at hadv
+          exact ih (bcLen - (i1 - bcOff)).toNat (by omega) i1 r1 r2 s1 rfl
     · simp only [hc, if_false, Except.map]
 
 theorem parseOpcodes_indep (ctx : Ctx) (d : Bytes) (r : FrbRec) (regs regs' : Regs) (bpc : Nat) (tell : Bool) :
